@@ -423,7 +423,7 @@ def main(argv=None):
         assumptions=getattr(mod, "ASSUMPTIONS", []) + ["real-number semantics: doubles are taken as exact rationals, arithmetic on symbolic data is exact (no IEEE rounding)"],
         wall_s=round(wall, 2), violations=len(new_viol),
     )
-    if not a.only:
+    if not a.only and os.path.realpath(REPO) == "/repo":
         os.makedirs(os.path.join(VERIF, "evidence"), exist_ok=True)
         json.dump(ev, open(os.path.join(VERIF, "evidence", f"{pid}.json"), "w"), indent=1, default=str)
     # ---- report -----------------------------------------------------------------------------------------
